@@ -193,8 +193,10 @@ func errorDisposition(info *types.Info, fd *ast.FuncDecl, stack []ast.Node, call
 }
 
 // errConsumed: after position from, inside scope, the variable is tested in an
-// if whose body diverges/returns, or appears in a return statement, or is
-// copied into another error variable that is consumed.
+// if whose condition concerns only the error (no unrelated conjunct) and whose
+// body diverges/returns, or appears in a return statement, or is copied into
+// another error variable that is consumed — the copy being unconditional or
+// guarded by "target == nil" (keep-the-first-error idiom).
 func errConsumed(info *types.Info, scope ast.Node, v types.Object, from token.Pos, depth int) bool {
 	if depth > 3 {
 		return false
@@ -210,21 +212,30 @@ func errConsumed(info *types.Info, scope ast.Node, v types.Object, from token.Po
 		})
 		return m
 	}
-	ast.Inspect(scope, func(n ast.Node) bool {
+	var stack []ast.Node
+	var walk func(n ast.Node)
+	walk = func(n ast.Node) {
 		if n == nil || ok {
-			return false
+			return
 		}
 		if n.End() <= from {
-			return false
+			return
 		}
+		stack = append(stack, n)
+		defer func() { stack = stack[:len(stack)-1] }()
 		switch x := n.(type) {
 		case *ast.IfStmt:
 			if x.Cond.Pos() >= from && mentions(x.Cond) {
-				if blockDiverges(info, x.Body) {
-					ok = true
-					return false
+				partial := false
+				for _, cj := range conjuncts(x.Cond) {
+					if !mentions(cj) {
+						partial = true
+					}
 				}
-				// `if err == nil { err = err2 }` merge pattern: look for assignments of other vars into v is not consumption of v; handled below
+				if !partial && blockDiverges(info, x.Body) {
+					ok = true
+					return
+				}
 			}
 		case *ast.ReturnStmt:
 			if x.Pos() >= from {
@@ -233,27 +244,56 @@ func errConsumed(info *types.Info, scope ast.Node, v types.Object, from token.Po
 						ok = true
 					}
 				}
-				if len(x.Results) == 0 {
-					// naked return with named result
-					if vv, isVar := v.(*types.Var); isVar && vv.Parent() != nil {
-						ok = ok || isNamedResult(info, scope, v)
-					}
-				}
 			}
 		case *ast.AssignStmt:
 			if x.Pos() >= from && len(x.Lhs) == 1 && len(x.Rhs) == 1 && mentions(x.Rhs[0]) {
 				if id, isId := x.Lhs[0].(*ast.Ident); isId {
 					if o := info.ObjectOf(id); o != nil && o != v && o.Type().String() == "error" {
-						if errConsumed(info, scope, o, x.End(), depth+1) {
+						// every enclosing condition between the scope and this copy must let it run when the target is still nil
+						guardOK := true
+						for _, anc := range stack {
+							ifs, isIf := anc.(*ast.IfStmt)
+							if !isIf || !(x.Pos() >= ifs.Body.Pos() && x.End() <= ifs.Body.End()) {
+								continue
+							}
+							if ifs.Pos() < from {
+								continue // this condition also guards the call that produced the error
+							}
+							if !condTrueWhenNil(info, ifs.Cond, o) {
+								guardOK = false
+							}
+						}
+						if guardOK && errConsumed(info, scope, o, x.End(), depth+1) {
 							ok = true
 						}
 					}
 				}
 			}
 		}
-		return true
-	})
+		var children []ast.Node
+		ast.Inspect(n, func(m ast.Node) bool {
+			if m == nil || m == n {
+				return m == n
+			}
+			children = append(children, m)
+			return false
+		})
+		for _, ch := range children {
+			walk(ch)
+		}
+	}
+	walk(scope)
 	return ok
+}
+
+// condTrueWhenNil: the condition is "target == nil" (possibly and-ed with nothing else).
+func condTrueWhenNil(info *types.Info, cond ast.Expr, target types.Object) bool {
+	b, ok := ast.Unparen(cond).(*ast.BinaryExpr)
+	if !ok || b.Op != token.EQL {
+		return false
+	}
+	isNil := func(e ast.Expr) bool { id, ok := ast.Unparen(e).(*ast.Ident); return ok && id.Name == "nil" }
+	return (rootObj(info, b.X) == target && isNil(b.Y)) || (rootObj(info, b.Y) == target && isNil(b.X))
 }
 
 func isNamedResult(info *types.Info, scope ast.Node, v types.Object) bool {
